@@ -108,6 +108,18 @@ func pktEv(p *rtp.Packet, frag []byte, haveFrag bool) Ev {
 		"bpayload_eq": bytes.Equal(back.Payload, p.Payload)}
 }
 
+// noNil replaces nil entries of a returned packet list by empty packets (so that the projection stays total) and counts them.
+func noNil(pkts []*rtp.Packet) ([]*rtp.Packet, int) {
+	n := 0
+	for i, p := range pkts {
+		if p == nil {
+			pkts[i] = &rtp.Packet{}
+			n++
+		}
+	}
+	return pkts, n
+}
+
 func runC06(raw json.RawMessage, w *Writer) {
 	var c c06Case
 	if err := json.Unmarshal(raw, &c); err != nil {
@@ -158,6 +170,7 @@ func runC06(raw json.RawMessage, w *Writer) {
 			var pkts []*rtp.Packet
 			rec.last, rec.budget = nil, -1
 			r, _ := guard(func() { pkts = pz.Packetize(cloneBytes(payload), u32of(op.Samples)) })
+			pkts, nilPkts := noNil(pkts)
 			frags := rec.last
 			pe := []Ev{}
 			for i, p := range pkts {
@@ -173,7 +186,7 @@ func runC06(raw json.RawMessage, w *Writer) {
 				kept = append(kept, keptPkt{p, snapOf(p)})
 			}
 			w.Emit(Ev{"ev": "packetize", "res": r, "len": op.Len, "samples": op.Samples, "inst": []int{int(instSec), int(instJ)},
-				"nfrags": len(frags), "budget": rec.budget, "pkts": pe, "ts_after": be32(ts), "earlier_packets_unchanged": earlier})
+				"nfrags": len(frags), "budget": rec.budget, "nil_packets": nilPkts, "pkts": pe, "ts_after": be32(ts), "earlier_packets_unchanged": earlier})
 		case "skip":
 			r, _ := guard(func() { pz.SkipSamples(u32of(op.Samples)) })
 			ts, _ := rtp.VerifPacketizerTimestamp(pz)
@@ -181,6 +194,7 @@ func runC06(raw json.RawMessage, w *Writer) {
 		case "pad":
 			var pkts []*rtp.Packet
 			r, _ := guard(func() { pkts = pz.GeneratePadding(uint32(op.N)) })
+			pkts, nilPkts := noNil(pkts)
 			pe := []Ev{}
 			for _, p := range pkts {
 				pe = append(pe, pktEv(p, nil, false))
@@ -189,7 +203,7 @@ func runC06(raw json.RawMessage, w *Writer) {
 			for _, p := range pkts {
 				kept = append(kept, keptPkt{p, snapOf(p)})
 			}
-			w.Emit(Ev{"ev": "pad", "res": r, "n": op.N, "pkts": pe, "earlier_packets_unchanged": earlier})
+			w.Emit(Ev{"ev": "pad", "res": r, "n": op.N, "nil_packets": nilPkts, "pkts": pe, "earlier_packets_unchanged": earlier})
 		case "enable":
 			r, _ := guard(func() { pz.EnableAbsSendTime(op.N) })
 			w.Emit(Ev{"ev": "enable", "res": r, "id": op.N})
